@@ -1,4 +1,5 @@
 import RgVerif.Lemmas.LineBufferFill
+import RgVerif.Lemmas.ReadByLineTop
 /-
 C02 — results do not depend on how the input bytes reach the searcher.
 Property theorems about the roll buffer (`line_buffer.rs`): for EVERY capacity (0 included), every
@@ -6,12 +7,12 @@ allocation policy, every reader script (fragmentation, `Interrupted` reads, whic
 `fill`/`consume` calls.
 -/
 namespace RgVerif.Props.C02
-open RgVerif RgVerif.LineBuffer
+open RgVerif RgVerif.LineBuffer RgVerif.Searcher
 
 /-- **No byte lost, duplicated or reordered.**  After any sequence of `fill` / `consume` calls on
 any reader, `buffer()` is exactly the window `[abs, abs + len)` of the input as seen through the
 binary-detection mode (`view`; the input itself when detection is off). -/
-theorem linebuffer_window (cfg : Config) (inp : Bytes) (script : List Step) (ops : List Op) :
+theorem linebuffer_window (cfg : LineBuffer.Config) (inp : Bytes) (script : List Step) (ops : List Op) :
     (run (LB.init cfg) ⟨inp, script, 0⟩ ops).1.buffer =
       window (view cfg inp) (run (LB.init cfg) ⟨inp, script, 0⟩ ops).1.abs
         (run (LB.init cfg) ⟨inp, script, 0⟩ ops).1.buffer.length := by
@@ -19,7 +20,7 @@ theorem linebuffer_window (cfg : Config) (inp : Bytes) (script : List Step) (ops
   exact h.window
 
 /-- The C02 case proper (binary detection off): the window is a window of the raw input. -/
-theorem linebuffer_window_raw (cfg : Config) (hb : cfg.binary = .none) (inp : Bytes)
+theorem linebuffer_window_raw (cfg : LineBuffer.Config) (hb : cfg.binary = .none) (inp : Bytes)
     (script : List Step) (ops : List Op) :
     (run (LB.init cfg) ⟨inp, script, 0⟩ ops).1.buffer =
       window inp (run (LB.init cfg) ⟨inp, script, 0⟩ ops).1.abs
@@ -33,7 +34,7 @@ under `Eager` allocation — by the allocation limit; when it returns `Ok(more)`
 `!buffer().is_empty()`, the unsearchable tail `buf[last_lineterm..end]` holds no terminator, and
 `buffer()` ends with the line terminator unless the reader hit EOF (for a reader that returns 0
 only at EOF: no data is left) or `Quit` detection stopped the buffer. -/
-theorem fill_progress (cfg : Config) (inp : Bytes) (script : List Step) (ops : List Op) :
+theorem fill_progress (cfg : LineBuffer.Config) (inp : Bytes) (script : List Step) (ops : List Op) :
     let st := run (LB.init cfg) ⟨inp, script, 0⟩ ops
     let res := st.1.fill st.2
     res.2.2 ≠ .fuel ∧
@@ -46,7 +47,7 @@ theorem fill_progress (cfg : Config) (inp : Bytes) (script : List Step) (ops : L
        (res.1.last = res.1.buf.length ∧ (res.1.stopped ∨ (NoZero script → res.2.1.data = [])))) := by
   intro st res
   obtain ⟨a, m, rest, h⟩ := run_inv cfg inp ops _ _ _ _ _ (Inv.init cfg inp script)
-  obtain ⟨m', rest', h1, h2, h3⟩ := fill_spec cfg inp st.1 st.2 a m rest h
+  obtain ⟨m', rest', h1, h2, h3, _⟩ := fill_spec cfg inp st.1 st.2 a m rest h
   have hcfg : res.1.cfg = cfg := h1.hcfg
   refine ⟨?_, ?_, h2, ?_⟩
   · intro hr
@@ -101,10 +102,78 @@ theorem roll_preserves (s : LB) (hp : s.pos ≤ s.buf.length) :
       omega
     · simp
 
+/-! ### end to end: the reader strategy against the slice strategy -/
+
+/-- **C02 at full strength** (slow path of `Core`, where no contract on the matcher is needed):
+for every configuration with binary detection off, every matcher, every sink script (continue /
+stop / error at any callback), every input, every read script (fragmentation, `Interrupted`),
+every initial capacity, `search_reader` delivers the event stream of `search_slice`.
+Believed true (0 disagreements of the two models on every run of the harness), NOT proved:
+missing are (1) retained context across a roll — the relation `last_line_visited_reader + abs =
+max last_line_visited_slice abs` of DESIGN §4.2 and the lemma that `is_gap`, the before-context
+lower bound and the lazy after-context start have the same outcome under it; (2) sink scripts
+other than all-continue; (3) `stop_on_nonmatch`. The fast path additionally needs the matcher
+contract (`LineSafe`) and is false as stated when the sink stops the search (finding F10b). -/
+def C02_full : Prop :=
+  ∀ (cfg : Searcher.Config) (m : MatcherI) (σ : Script) (inp : Bytes) (script : List Step) (cap : Option Nat),
+    cfg.binary = .none → cfg.multiLine = false →
+    isLineByLineFast cfg m (Core.new cfg true) = false → NoZero script →
+    (searchReader cfg m σ none cap ⟨inp, script, 0⟩).events = (searchSlice cfg m σ inp).events
+
+/-- **C02, proved part**: no context lines (`-A`, `-B`, `-C` = 0; passthru allowed), all-continue
+sink, no `stop_on_nonmatch`, slow path, detection off, eager allocation: for EVERY input, read
+script (1-byte reads, `Interrupted`, the decoder's BOM peek), and initial capacity, the reader
+strategy delivers exactly the slice strategy's events — matched / passthru lines, line numbers,
+absolute offsets, final byte count — and returns `Ok`. -/
+theorem C02_partial (cfg : Searcher.Config) (m : MatcherI) (h : NoCtx cfg)
+    (hslow : isLineByLineFast cfg m (Core.new cfg true) = false)
+    (lbcfg : LineBuffer.Config) (hlt : lbcfg.lineterm = cfg.lineTerm.asByte) (hb : lbcfg.binary = .none)
+    (hal : lbcfg.alloc = .eager) (rdr : Reader) (hz : NoZero rdr.script) :
+    (readByLine cfg m allCont lbcfg rdr).events = (sliceByLine cfg m allCont rdr.data).events ∧
+      (readByLine cfg m allCont lbcfg rdr).result = .ok () :=
+  readByLine_eq_sliceByLine m h hslow lbcfg hlt hb hal rdr hz
+
+/-- The same through the strategy selection of `search_reader` / `search_slice` (roll buffer built
+by `Config::line_buffer` with any `verif_buffer_capacity`, pass-through decoder with its BOM peek). -/
+theorem C02_partial_search (cfg : Searcher.Config) (m : MatcherI) (h : NoCtx cfg) (hml : cfg.multiLine = false)
+    (hslow : isLineByLineFast cfg m (Core.new cfg true) = false)
+    (inp : Bytes) (script : List Step) (cap : Option Nat)
+    (hz : NoZero (⟨inp, script, 0⟩ : Reader).withBomPeek.script) :
+    (searchReader cfg m allCont none cap ⟨inp, script, 0⟩).events = (searchSlice cfg m allCont inp).events := by
+  have hmm : multiLineWithMatcher cfg m = false := by simp [multiLineWithMatcher, hml]
+  unfold searchReader searchSlice
+  simp only [hmm, Bool.false_eq_true, if_false]
+  have := C02_partial cfg m h hslow (lineBufferConfig cfg none cap) rfl
+    (by simp [lineBufferConfig, h.hbin, BinaryDetection.toLB]) (by simp [lineBufferConfig])
+    (⟨inp, script, 0⟩ : Reader).withBomPeek hz
+  exact this.1
+
+/-- **`multi_line(true)` for a pattern that cannot match the terminator changes nothing** (the
+searcher downgrades to line mode) — proved in the setting of `C02_partial`. -/
+theorem C02_multiline_downgrade (cfg : Searcher.Config) (m : MatcherI) (h : NoCtx cfg)
+    (hslow : isLineByLineFast cfg m (Core.new cfg true) = false)
+    (hdown : multiLineWithMatcher { cfg with multiLine := true } m = false) (inp : Bytes) :
+    (searchSlice { cfg with multiLine := true } m allCont inp).events
+      = (searchSlice { cfg with multiLine := false } m allCont inp).events :=
+  searchSlice_ml_downgrade m h hslow hdown inp
+
+/-- Non-vacuity of `C02_partial`: passthru, NUL-free text with LF inside... a capacity-1 buffer,
+1-byte reads with an interrupted one, a matcher that selects lines containing `x`: the guard holds
+and the run rolls and grows the buffer several times. -/
+example :
+    let cfg : Searcher.Config := { passthru := true }
+    let m : MatcherI := MatcherI.ofFindAt (fun h at_ =>
+      ((h.drop at_).findIdx? (· == 120)).map fun i => ⟨at_ + i, at_ + i + 1⟩)
+    NoCtx cfg ∧ isLineByLineFast cfg m (Core.new cfg true) = false ∧
+      (readByLine cfg m allCont ⟨1, 10, .eager, .none⟩ ⟨[97, 10, 120, 10, 98], [.ret 1, .intr, .ret 1], 0⟩).events
+        = [.begin, .context .other (some 1) 0 [97, 10], .matched (some 2) 2 [120, 10],
+           .context .other (some 3) 4 [98], .finish 5 none] := by
+  refine ⟨⟨rfl, rfl, rfl, rfl⟩, by decide, by decide⟩
+
 /-- Non-vacuity: capacity 1, two-byte lines, 1-byte reads with an `Interrupted` in between — the
 buffer grows, fills, and is rolled; the window statement is about a run that does all of it. -/
 example :
-    let cfg : Config := ⟨1, 10, .eager, .none⟩
+    let cfg : LineBuffer.Config := ⟨1, 10, .eager, .none⟩
     let st := run (LB.init cfg) ⟨[97, 10, 98, 10], [.ret 1, .ret 1, .intr, .ret 1], 0⟩
       [.fill, .consume 2, .fill, .fill]
     st.1.buffer = [98, 10] ∧ st.1.abs = 2 := by decide
